@@ -312,7 +312,10 @@ def reuse_dump(storage_dir: str, backend: str, which: int):
     """Fresh interpreter: ONE Lab object used for run -> is_cached -> cached_tasks -> run(bust) -> run."""
     silence_labtech()
     import json as _json
-    lab = labtech.Lab(storage=storage_dir, runner_backend=backend, max_workers=2, notebook=False)
+    # the Lab is given a *relative* storage path; later the process changes its working directory
+    os.makedirs(os.path.dirname(storage_dir), exist_ok=True)
+    os.chdir(os.path.dirname(storage_dir))
+    lab = labtech.Lab(storage=os.path.basename(storage_dir), runner_backend=backend, max_workers=2, notebook=False)
     wf = os.environ['VERIF_WORLD_FILE']
     out = []
 
@@ -321,6 +324,8 @@ def reuse_dump(storage_dir: str, backend: str, which: int):
     phases = [('first', False), ('again', False), ('bust', True), ('after-bust', False)]
     for name, bust in phases:
         open(wf, 'w').close()
+        if name == 'again':
+            os.chdir(tempfile.gettempdir())
         tasks = task_sets(which)
         pre = [lab.is_cached(t) for t in tasks]
         listed = {type(t) for t in tasks}
@@ -477,7 +482,7 @@ def run(tier: str, seed: int) -> Result:
     backends = ('serial', 'fork', 'spawn')
     if tier == 'quick':
         ts = trees(1, FULL, width=1, task_types=('Leaf',), inner_leaves=FULL) + trees(2, TINY[:3], width=2, task_types=('Leaf', 'BLeaf'), inner_leaves=TINY[:3])[::5]
-        outer = ('Foo', 'JFoo', 'P2')
+        outer = ('Foo', 'JFoo', 'P2', 'BFoo')      # BFoo: the same qualified name as Foo in another module
         cross = [(b1, b2, 0, 1 + (i % 3), 4 + (i % 5)) for i, (b1, b2) in enumerate(itertools.product(backends, repeat=2))]
         fs_every = 40
     else:
